@@ -29,7 +29,7 @@ FIELD_SET = ["absent", "true", "named", "false"]
 KEYS = ["ccv7s_", "ccv7d"]         # nested schema keys (one ends in an underscore: names are joined with "_" whatever the parts end in)
 FKEY = "ccv7f"
 PREFIX = {0: "CCV7app", 1: "CCV7p1x_", 2: "CCV7P2"}        # named prefixes are used as written (mixed case included)
-FNAMED = "CCV7NAMED"
+FNAMED = "CCV7Named_f"          # an explicitly given name is used as written (lower-case letters included)
 
 KINDS = {
     "str": {"mk": lambda cc, **kw: cc.StringField(choices=["alpha", "beta", "gamma", "delta"], **kw), "valid": ("beta", "beta"), "invalid": "zeta",
@@ -153,7 +153,7 @@ def ref_name(ssets, fset, depth):
 def plausible_names(depth):
     F = FKEY.upper()
     parts = [PREFIX[0], PREFIX[1], PREFIX[2], KEYS[0].upper(), KEYS[1].upper()]
-    names = {F, FNAMED, "_" + F, FKEY, DISPLAY.upper(), DISPLAY, DISPLAY.upper().replace(" ", "_")}
+    names = {F, FNAMED, FNAMED.upper(), FNAMED.lower(), "_" + F, FKEY, DISPLAY.upper(), DISPLAY, DISPLAY.upper().replace(" ", "_")}
     for pre in (PREFIX[0], PREFIX[0] + "_" + KEYS[0].upper(), PREFIX[1]):
         names.add(pre + "_" + DISPLAY.upper())
         names.add(pre + "_" + DISPLAY.upper().replace(" ", "_"))
@@ -202,6 +202,8 @@ def histories():
             hs.append([a, b])
     # a document that names the key with an explicit null
     hs += [["load_null"], ["loads_null"], ["load_null", "assign"], ["assign", "load_null"], ["load_tree", "loads_null"]]
+    # the explicit assignment arrives through the command-line override helper and is a falsy value (False, 0, 0.0) where the kind has one
+    hs += [["assign0"], ["load_tree", "assign0"]]
     return hs
 
 
@@ -275,6 +277,10 @@ def _setenv(env):
     os.environ.update(env)
 
 
+def _assign0(k):
+    return k["falsy"][1] if "falsy" in k else k["assign"]
+
+
 def _run_history(cc, cfg, depth, k, hist):
     for op in hist:
         if op == "load_tree":
@@ -285,6 +291,9 @@ def _run_history(cc, cfg, depth, k, hist):
             cfg.loads(json.dumps(tree_for(depth, k["file"])), "json")
         elif op == "assign":
             setattr(chained(cfg, depth), FKEY, k["assign"])
+        elif op == "assign0":
+            import argparse
+            cc.cmdline_args_override(cfg, argparse.Namespace(**{path_of(depth): _assign0(k)}))
         elif op == "load_null":
             cfg.load_tree(tree_for(depth, None))
         elif op == "loads_null":
@@ -364,7 +373,9 @@ def _world(ctx, job, cc, depth, ssets, fset, kind, with_default, var, only_hist)
         if bound_active:
             # last op an assignment -> the assigned value; an assignment followed by loads -> the assigned value or
             # (when the load rebuilt the enclosing sub-configuration) the variable again; never the file's value
-            if hist and hist[-1] == "assign":
+            if hist and hist[-1] == "assign0":
+                wants = [_assign0(k)]
+            elif hist and hist[-1] == "assign":
                 wants = [k["assign"]]
             elif "assign" in hist:
                 wants = [k["assign"], vv[1]]
